@@ -9,6 +9,7 @@ NEW = {  # seeds that the first run of the quick check missed -> what was added
  'C17-3': 'was UNDECIDED (loop fingerprint): fingerprints relaxed to the loop head', 'C17-4': 'was UNDECIDED (loop fingerprint): fingerprints relaxed to the loop head',
  'C12-4': 'new units `fuzzy_out_none0/1` (C13 units run under C12 too)', 'C14-4': 'cruise-plan clauses in `bell_gen_small`',
  'C15-4': 'new units `tp*_final_ts2e-60/+60`', 'C19-3': 'new units `lcm64_protocol`, `lcm64_wide`', 'C19-4': 'new units `sqrt64_squares_*`',
+ 'C07-5': 'queue ledger: every pooled slot holds a distinct node',
 }
 print('| seed | change | detected | reporting units (first 3) | first failed obligation | replay confirmed | added after a miss |')
 print('|---|---|---|---|---|---|---|')
